@@ -189,6 +189,21 @@ func (dec *ttlvReader) validate() error {
 	if ty := dec.Type(); ty > TypeInterval || ty == 0 {
 		return Errorf("invalid TTLV type %s", ty)
 	}
+	// Fixed-size types must announce their exact size, otherwise reading the value would go out of bounds
+	switch dec.Type() {
+	case TypeInteger, TypeEnumeration, TypeInterval:
+		if dec.len() != 4 {
+			return Errorf("invalid length %d for TTLV type %s", dec.len(), dec.Type())
+		}
+	case TypeLongInteger, TypeBoolean, TypeDateTime:
+		if dec.len() != 8 {
+			return Errorf("invalid length %d for TTLV type %s", dec.len(), dec.Type())
+		}
+	case TypeBigInteger:
+		if l := dec.len(); l == 0 || l%8 != 0 {
+			return Errorf("invalid length %d for TTLV type %s", l, dec.Type())
+		}
+	}
 	// if th := (dec.Tag() >> 16) & 0xFF; th != 0x42 && th != 0x54 {
 	// 	return Errorf("invalid TTLV tag %X", dec.Tag())
 	// }
@@ -256,6 +271,9 @@ func (dec *ttlvReader) LongInteger(tag int) (int64, error) {
 }
 
 func (dec *ttlvReader) BigInteger(tag int) (*big.Int, error) {
+	if err := dec.assertType(TypeBigInteger, tag); err != nil {
+		return nil, err
+	}
 	v := dec.value()
 	return bytesToBigInt(v), dec.Next()
 }
@@ -280,7 +298,12 @@ func (dec *ttlvReader) Struct(tag int, f func(reader) error) error {
 	if err := dec.assertType(TypeStructure, tag); err != nil {
 		return err
 	}
-	if err := f(&ttlvReader{buf: dec.value()}); err != nil {
+	// The nested items have not been looked at yet: validate the first one like any other
+	inner, err := newTTLVReader(dec.value())
+	if err != nil {
+		return err
+	}
+	if err := f(inner); err != nil {
 		return err
 	}
 	return dec.Next()
